@@ -439,6 +439,8 @@ class CFG:
             if b in seen or b in cut_blocks:
                 continue
             seen.add(b)
+            if self.blocks[b].noret:
+                continue        # abort()/exit(): control does not continue to the exit block
             for idx, s in enumerate(self.blocks[b].succs):
                 if s is None or (b, idx) in cut_edges:
                     continue
